@@ -139,6 +139,26 @@ Section Assoc.
     eapply Permutation_NoDup; [symmetry; apply Permutation_map; exact P|now apply asc_NoDup].
   Qed.
 
+  (* every entry of the result was an entry of the input *)
+  Lemma ainsert_in k v l e : In e (ainsert k v l) -> e = (k, v) \/ In e l.
+  Proof.
+    induction l as [|[k' v'] r IH]; cbn [ainsert]; [intros [<-|[]]; now left|].
+    destruct (bytes_cmp k k'); cbn [In].
+    - intros [<-|H]; [now left|right; now right].
+    - intros [<-|H]; [now left|now right].
+    - intros [<-|H]; [right; now left|]. destruct (IH H) as [->|H']; [now left|right; now right].
+  Qed.
+  Lemma aof_list_in_gen l : forall acc e,
+    In e (fold_left (fun acc kv => ainsert (fst kv) (snd kv) acc) l acc) -> In e acc \/ In e l.
+  Proof.
+    induction l as [|[k v] r IH]; intros acc e H; [now left|]. cbn [fold_left fst snd] in H.
+    destruct (IH _ _ H) as [H1|H1].
+    - destruct (ainsert_in _ _ _ _ H1) as [->|H2]; [right; now left|now left].
+    - right. now right.
+  Qed.
+  Lemma aof_list_in l e : In e (aof_list l) -> In e l.
+  Proof. intros H. destruct (aof_list_in_gen l [] e H) as [[]|H']; exact H'. Qed.
+
   (* lookup *)
   Lemma aget_in k v l : NoDup (List.map fst l) -> In (k, v) l -> aget k l = Some v.
   Proof.
